@@ -68,8 +68,16 @@ static void *watchdog(void *a)
 	}
 	return NULL;
 }
+/* a signal whose handler was installed without SA_RESTART (what qb_loop_signal_add() does) and that the producer has
+ * blocked: the kernel hands it to another thread, e.g. the logging thread idle in sem_wait() */
+static long n_signals_sent; static int sig_hits;
+static void on_usr1(int sig) { (void)sig; __atomic_add_fetch(&sig_hits, 1, __ATOMIC_RELAXED); }
+static void start_logging_thread(void) { sigset_t bs; sigemptyset(&bs); sigaddset(&bs, SIGUSR1); pthread_sigmask(SIG_UNBLOCK, &bs, NULL); qb_log_thread_start(); pthread_sigmask(SIG_BLOCK, &bs, NULL); }   /* the new thread inherits the mask: it is the only one that takes SIGUSR1 */
+static void poke_other_threads(void) { n_signals_sent++; kill(getpid(), SIGUSR1); }
 static void run_case(long kase)
 {
+	{ static int sig_ready; if (!sig_ready) { sig_ready = 1; struct sigaction sa; memset(&sa, 0, sizeof sa); sa.sa_handler = on_usr1; sigemptyset(&sa.sa_mask); sa.sa_flags = 0; sigaction(SIGUSR1, &sa, NULL);
+		sigset_t bs; sigemptyset(&bs); sigaddset(&bs, SIGUSR1); pthread_sigmask(SIG_BLOCK, &bs, NULL); } }
 	{ static int wd_started; if (!wd_started) { wd_started = 1; pthread_t wt; pthread_create(&wt, NULL, watchdog, NULL); } }
 	__atomic_store_n(&case_no, kase, __ATOMIC_RELAXED); __atomic_store_n(&case_started, (long)time(NULL), __ATOMIC_RELAXED);
 	vprng_t r; vp_seed(&r, vp.seed, (uint64_t)kase);
@@ -100,6 +108,7 @@ static void run_case(long kase)
 		int N = vp_chance(&r, 1, 4) ? 1500 + (int)vp_u(&r, 1500) : 5 + (int)vp_u(&r, 300);
 		int big = vp_chance(&r, 1, 3);
 		slow_us = vp_chance(&r, 1, 3) ? 20 + (int)vp_u(&r, 300) : 0;
+		int signals = vp_chance(&r, 1, 3);
 		if (finirace) { N = 1 + (int)vp_u(&r, 4); hazard = 0; start_thread = 1; big = 0; slow_us = 0; }
 		if (big && slow_us && N > 1000) n_backlog_cases++;
 		vp_desc("round=%d nt=%d order=%d start=%d hazard=%d N=%d big=%d slow=%d", rd, nt, order, start_thread, hazard, N, big, slow_us);
@@ -116,7 +125,7 @@ static void run_case(long kase)
 		}
 		slow_slot = -1;
 		for (int i = 0; i < nt; i++) if (threaded[i]) { slow_slot = slot[i]; break; }
-		if (order == 1 && start_thread) qb_log_thread_start();
+		if (order == 1 && start_thread) start_logging_thread();
 		for (int i = 0; i < nt; i++) if (threaded[i]) qb_log_ctl(slot[i], QB_LOG_CONF_THREADED, QB_TRUE);
 		if (order == 2) {
 			/* control operations on a threaded target before the thread exists */
@@ -129,7 +138,7 @@ static void run_case(long kase)
 			}
 		}
 		for (int i = 0; i < nt; i++) qb_log_ctl(slot[i], QB_LOG_CONF_ENABLED, QB_TRUE);
-		if (order != 1 && start_thread) qb_log_thread_start();
+		if (order != 1 && start_thread) start_logging_thread();
 		int judged = start_thread && !hazard;
 		/* logging to a threaded target needs the thread (precondition of the property): without it only the
 		 * control operations and init/fini are exercised */
@@ -165,6 +174,7 @@ static void run_case(long kase)
 				else if (hazard == 2) { qb_log_custom_close(slot[i]); }
 				else qb_log_ctl(slot[i], QB_LOG_CONF_THREADED, QB_FALSE);
 			}
+			if (signals && vp_chance(&r, 1, 60)) { usleep(300); poke_other_threads(); }   /* after a pause the logging thread is most likely idle */
 			if (slow_us == 0 && vp_chance(&r, 1, 200)) usleep(50);
 		}
 		vp_desc("round=%d qb_log_fini (nt=%d order=%d start=%d hazard=%d N=%d)", rd, nt, order, start_thread, hazard, N);
@@ -236,7 +246,7 @@ int main(int argc, char **argv)
 	vp_count("messages_logged", n_msgs); vp_count("logger_invocations", n_delivered); vp_count("drops_reported_and_matched", n_dropped_accounted);
 	vp_count("init_fini_rounds", n_rounds); vp_count("reinit_rounds", n_reinit); vp_count("control_ops_while_busy", n_ctl_ops);
 	vp_count("backlog_pressure_rounds", n_backlog_cases); vp_count("control_before_thread_start", n_ctl_before_start);
-	vp_count("cases_run_on_a_loaded_machine", n_loaded_cases); vp_count("refused_control_operations_while_busy", n_bad_ctl);
+	vp_count("signals_sent_to_the_other_threads", n_signals_sent); vp_count("cases_run_on_a_loaded_machine", n_loaded_cases); vp_count("refused_control_operations_while_busy", n_bad_ctl);
 	vp_finish();
 	return 0;
 }
